@@ -25,7 +25,7 @@ import (
 // evaluation on a held result, or an environment step on the pool.
 
 var c13Lists = []scen.ListSpec{
-	{ID: 1, Text: "! list A\n||example.org^\n||example.org/ads\n||ads.example.com^\n/ex[a-z]+le\\.net/\n/ad$domain=example.org\n@@||example.org^$generichide\n##.g1\nexample.org##.s1\nexample.org#@#.g2\n##.g2\n/(/\n"},
+	{ID: 1, Text: "! list A\n||example.org^\n||example.org/ads\n||ads.example.com^\n/ex[a-z]+le\\.net/\n/ad$domain=example.org\n@@||example.org^$generichide\n##.g1\nexample.org##.s1\nexample.org#@#.g2\n##.g2\n/(/\n@@||docsite.test^$document\nmetrics.example.com^\n||cdn.test/blocked.js\n"},
 	{ID: 2, Text: "# list B\n0.0.0.0 example.org\n:: example.org\n127.0.0.1 hosts.test alias.test\n||blocked.test^$client=10.0.0.1\n||tagged.test^$ctag=pc\n||tagged.test^$dnstype=AAAA,important\n||rw.test^$dnsrewrite=1.2.3.4\n||rw.test^$dnsrewrite=2.3.4.5\n@@||rw.test^$dnsrewrite=1.2.3.4\n||rw.test^$dnsrewrite=NOERROR;MX;10 mx.test\n@@||rw.test^$dnsrewrite=NOERROR;MX;10 mx.test\n/h[o0]sts\\.test/\n"},
 	{ID: -3, Text: "||blocked.test^$ctag=~pc\n@@||ads.example.com^$script\n||example.org^$third-party\n"},
 }
@@ -57,6 +57,10 @@ func c13Ops() []c13Op {
 		{name: "engine example.org/ads from other.org", query: q("engine", "http://example.org/ads", "http://other.org/", rules.TypeScript), slot: 2},
 		{name: "cosmetic example.org", query: &scen.Query{Kind: "cosmetic", Host: "example.org", Option: rules.CosmeticOptionAll}, slot: -1},
 		{name: "netmatch ads.example.com", query: q("netmatch", "http://ads.example.com/x", "", rules.TypeScript), slot: -1},
+		{name: "engine cdn.test/lib.js from docsite.test (document exception on the referrer)", query: q("engine", "http://cdn.test/lib.js", "http://docsite.test/", rules.TypeScript), slot: 3},
+		{name: "dns metrics.example.com", query: d("metrics.example.com", 1, "", ""), slot: -1},
+		{name: "netall other.test/?u=metrics.example.com", query: q("netall", "http://other.test/?u=metrics.example.com", "", rules.TypeScript), slot: -1},
+		{name: "GetBasicResult()+GetCosmeticOption() on held docsite result", deriv: "basic", on: 3},
 		{name: "DNSRewrites() on held rw.test result", deriv: "rewrites", on: 1},
 		{name: "DNSRewritesAll() on held rw.test result", deriv: "rewritesall", on: 1},
 		{name: "DNSRewrites() on held example.org result", deriv: "rewrites", on: 0},
@@ -135,7 +139,7 @@ func (m *c13Model) step(e *scen.Engines, pool *shim.Pool[rules.Request], held ma
 				h := &c13Held{dns: res, ok: ok}
 				h.snap = h.render()
 				held[op.slot] = h
-			case 2:
+			case 2, 3:
 				mr := e.Eng.MatchRequest(rules.NewRequest(op.query.URL, op.query.Src, op.query.Type))
 				ans = scen.RenderMatchingResult(mr)
 				h := &c13Held{mr: mr}
@@ -166,7 +170,14 @@ func (m *c13Model) step(e *scen.Engines, pool *shim.Pool[rules.Request], held ma
 			}
 		case op.deriv == "basic":
 			if h := held[op.on]; h != nil {
-				obs = scen.RenderNet(h.mr.GetBasicResult()) + fmt.Sprint(h.mr.GetCosmeticOption())
+				o1 := h.mr.GetCosmeticOption()
+				b1 := scen.RenderNet(h.mr.GetBasicResult())
+				o2 := h.mr.GetCosmeticOption()
+				b2 := scen.RenderNet(h.mr.GetBasicResult())
+				obs = b1 + fmt.Sprint(o1)
+				if (o1 != o2 || b1 != b2) && last {
+					m.violate("derived-evaluation-repeatable", map[string]any{"op": op.name}, fmt.Sprintf("GetCosmeticOption/GetBasicResult give %v/%s, then %v/%s on the same result", o1, b1, o2, b2), hist)
+				}
 			}
 		case op.deriv == "poison":
 			urlfilter.VerifDNSPoolRequest(e.DNS, func(r *rules.Request) {
@@ -218,7 +229,7 @@ func (m *c13Model) finish(e *scen.Engines, st *filterlist.RuleStorage, pool *shi
 	for i, op := range m.ops {
 		enabled[i] = op.query != nil || op.on < 0 || held[op.on] != nil
 	}
-	for slot := 0; slot < 3; slot++ {
+	for slot := 0; slot < 4; slot++ {
 		if h := held[slot]; h != nil {
 			fmt.Fprintf(&sb, "|held%d:%s", slot, h.snap)
 		}
@@ -250,7 +261,7 @@ func init() {
 				case 0, 1:
 					res, ok := e.DNS.MatchRequest(op.query.DNSRequest())
 					m.expected[i] = scen.RenderDNSResult(res, ok) + " rewrites=" + scen.RenderNets(res.DNSRewrites())
-				case 2:
+				case 2, 3:
 					m.expected[i] = scen.RenderMatchingResult(e.Eng.MatchRequest(rules.NewRequest(op.query.URL, op.query.Src, op.query.Type)))
 				default:
 					m.expected[i] = e.Answer(*op.query)
@@ -279,6 +290,9 @@ func init() {
 			g := statespace.BFS(model, gd, false, c.Workers, c.Deadline)
 			// main pass: de-duplicated search to the fixpoint (or the depth bound)
 			maxDepth := 0 // until the frontier is empty (fixpoint); the deadline guards it
+			if file && !c.Thorough() {
+				maxDepth = 5 // quick: the file-backed variant is bounded, the string-backed one runs to the fixpoint
+			}
 			s := statespace.BFS(model, maxDepth, true, c.Workers, c.Deadline)
 			total.States += s.States
 			total.Transitions += s.Transitions + g.Transitions
@@ -290,8 +304,8 @@ func init() {
 				"max_depth": s.MaxDepth, "fixpoint": s.Fixpoint, "deadline_hit": s.DeadlineHit, "states_per_depth": s.PerDepth, "distinct_observations": s.DistinctOutcomes,
 				"non_dedup_guard_depth": gd, "non_dedup_guard_histories": g.States, "non_dedup_deadline_hit": g.DeadlineHit})
 			if !file {
-				c.Run.Sample(map[string]any{"history": []string{ops[1].name, ops[15].name, ops[4].name}, "checked": "last answer equals the fresh-engine answer; no held result changed"})
-				c.Run.Sample(map[string]any{"history": []string{ops[3].name, ops[11].name, ops[3].name, ops[12].name}})
+				c.Run.Sample(map[string]any{"history": []string{ops[1].name, ops[19].name, ops[4].name}, "checked": "last answer equals the fresh-engine answer; no held result changed"})
+				c.Run.Sample(map[string]any{"history": []string{ops[3].name, ops[15].name, ops[3].name, ops[16].name}})
 			}
 		}
 		fix := true
